@@ -58,6 +58,9 @@ let handle line =
     let prec = List.assoc lab precs in
     [id ^ " U " ^ hex_of_str lab ^ ":" ^ string_of_z (h_qnum q) ^ "/" ^ string_of_z (h_qden q)
      ^ "|" ^ string_of_z (print_scaled (h_qnum q) (h_qden q) prec) ^ ":" ^ string_of_z prec]
+  | L [A "held"; A id; n] ->
+    (* (held ID N) -> "ID H k": the postings an account holds (account_t::posts) after it was given N *)
+    [id ^ " H " ^ string_of_z (held_of_rows (zatom n))]
   | _ -> failwith "case"
 
 let () = main_loop handle
